@@ -12,7 +12,7 @@ from . import _sysalg_world as W
 
 INVARIANTS = ["LawReorder", "LawRotate", "LawDoubleSpin", "LawMakeSOC", "LawToPlainR", "LawInterpolate", "AlwaysHermitian"]
 DEFAULTS = dict(NWS="{1, 2}", KDIRS=2, MAXHOPS=1, MAXHOPS2=1, NEPS=2, NCEN=2, WITHX="{FALSE}", OPS='{"Reorder"}', MAXLEN=1,
-                PHS="{0, 1}", ANGM="{0, 1}", ANGN="{0, 1}", ALS="{1}", MAXSOC=1, DEN=2, SC=1, AEXT=0, NSPINS="{2}", Variant='"ok"')
+                PHS="{0, 1}", ANGM="{0, 1}", ANGN="{0, 1}", ALS="{1}", MAXSOC=1, DEN=2, SC=1, AEXT=0, NSPINS="{2}", NAMES="{}", Variant='"ok"')
 OP_SITE = {"Reorder": "System_R.reorder", "Rotate": "rotate_all_R_matrices", "DoubleSpin": "System_R.double_spin",
            "MakeSOC": "SystemSOC", "SetSOC": "SystemSOC.set_soc_axis", "ToPlainR": "SystemSOC.get_system_R",
            "Interpolate": "SystemInterpolator.interpolate", "base": "System_R.from_sparse"}
@@ -374,7 +374,7 @@ def _check_centres(rep, real, got, cur, views, ks, site, last, detail, var, info
             rep.violation(ksite, dict(detail, centres_twelfths=got["cen"].tolist(), differences=dsh))
         return
     try:
-        fresh = W.setup(W.build, got, periodic=var["periodic"], lattice=var["lattice"])
+        fresh = W.setup(W.build, dict(got, M={}), periodic=var["periodic"], lattice=var["lattice"])
         dh2 = W.real_dhk(fresh, ks)
     except W.HarnessMisuse as e:
         W.note_skip("rebuild", e)
